@@ -21,7 +21,7 @@ RULE = ('Averager: 2-3 clients doing add(v)/get()/pop() (v small integers as flo
         'iterations. evaluations = schedules judged; distinct_nontrivial = distinct schedule traces with a '
         'preemption inside an operation + distinct (count, seconds, pattern, callers) throttle cells')
 DISTINCT = ('averager_schedules', 'throttle_cells', 'throttle_schedules')
-REQUIRED = ('throttle_calls_whose_function_failed', 'averager_schedules_checked', 'averager_pops', 'averager_free_runs', 'throttle_runs', 'throttle_calls_started',
+REQUIRED = ('recipe_arguments_by_position', 'throttle_calls_whose_function_failed', 'averager_schedules_checked', 'averager_pops', 'averager_free_runs', 'throttle_runs', 'throttle_calls_started',
             'throttle_sleeps', 'throttle_concurrent_runs', 'throttle_runs_named_falsy', 'throttle_runs_named_derived', 'throttle_runs_on_jsondisk',
             'throttle_runs_coarse_clock')
 ASSUMPTIONS = ('throttle is driven through its own time_func/sleep_func parameters; virtual sleep blocks the caller '
@@ -288,7 +288,12 @@ def throttle_run(dc, sc, res, rng, label):
             body = make_body(ci)
             body.__qualname__ = 'caller_%d.body' % ci
             body.__name__ = 'body_%d' % ci
-        wrapped.append(dc.throttle(caches[ci], count, seconds, name=bucket, time_func=tfunc, sleep_func=vsleep)(body))
+        # throttle(cache, count, seconds, name, expire, tag, time_func, sleep_func): by keyword or by position
+        how = rng.randrange(3)
+        res.count('recipe_arguments_by_position', 1 if how else 0)
+        wrapped.append([lambda: dc.throttle(caches[ci], count, seconds, name=bucket, time_func=tfunc, sleep_func=vsleep),
+                        lambda: dc.throttle(caches[ci], count, seconds, bucket, time_func=tfunc, sleep_func=vsleep),
+                        lambda: dc.throttle(caches[ci], count, seconds, bucket, None, None, tfunc, vsleep)][how]()(body))
     res.count('throttle_runs_named_' + ('derived' if bucket is None else 'falsy' if not bucket else 'text'))
     t_start = clock.now_peek()
     ncalls = rng.randrange(3, 9)
